@@ -82,20 +82,29 @@ def impl_functions():
             uri.urljoin = saved
     fs['decide_literal_type'] = dlt
     fs['build_shapes_name_for_class_uri'] = lambda strs, flag, opt: shapes.build_shapes_name_for_class_uri(strs[0], strs[1])
+    fs['longest_common_prefix'] = lambda strs, flag, opt: uri.longest_common_prefix(strs[0], strs[1])
+    mi = importlib.import_module("shexer.core.shexing.strategy.minimal_iri_strategy.annotate_min_iri_strategy")
+    fs['determine_suitable_iri_pattern'] = lambda strs, flag, opt: mi.AnnotateMinIriStrategy._determine_suitable_iri_pattern(None, opt)
     fs['get_shape_label_for_class_uri'] = lambda strs, flag, opt: l2s.ListOfClassesToShapeMap._get_shape_label_for_class_uri(None, strs[0])
     return fs
 
 
-ARITY = {'remove_corners': 1, 'decide_literal_type': 1, 'build_shapes_name_for_class_uri': 2, 'get_shape_label_for_class_uri': 1}
+ARITY = {'determine_suitable_iri_pattern': 0, 'longest_common_prefix': 2, 'remove_corners': 1, 'decide_literal_type': 1, 'build_shapes_name_for_class_uri': 2, 'get_shape_label_for_class_uri': 1}
 
 
 def gen_function(rng, names):
     name = rng.choice(names)
     strs = [rstr(rng, PIECES, 0, 6) for _ in range(ARITY[name])]
+    if name == 'longest_common_prefix' and rng.random() < 0.8:      # strings that share a prefix, one a prefix of the other, equal, empty
+        basis = rstr(rng, PIECES, 0, 4)
+        strs = [basis[:rng.randint(0, len(basis))] + rstr(rng, SMALL, 0, 2) if rng.random() < 0.7 else basis for _ in range(2)]
     if name == 'build_shapes_name_for_class_uri' and rng.random() < 0.7:
         strs[1] = rng.choice(['http://weso.es/shapes/', 'http://example.org/s#', ''])
     flag = rng.random() < 0.5
     opt = None if rng.random() < 0.5 else rstr(rng, PIECES, 0, 2)
+    if name == 'determine_suitable_iri_pattern':
+        opt = None if rng.random() < 0.1 else rng.choice(['', 'h', 'ht', 'http', 'https', 'http:', 'http:/', 'http://', 'https://', 'https://a', 'http://a', 'urn:', 'a:', 'ab:', 'x#']) \
+            + rstr(rng, ['a', 'b', '/', '#', ':', 'é', '.', ' '], 0, 6)
     line = "F %s %s %s %s" % (name, '1' if flag else '0', 'N' if opt is None else enc(opt), " ".join(enc(s) for s in strs))
     return line, (name, strs, flag, opt)
 
@@ -128,7 +137,9 @@ def run(rng, n, names=None, prebuilt=None):
         if g == "nofunc":
             stats["nofunc"] += 1      # function not translated this run: the Props build reports that, nothing to compare
             continue
-        if e[0] == 'str':
+        if e[0] == 'str' and e[1] is None:
+            want = "none"
+        elif e[0] == 'str':
             want = "str " + enc(e[1])
         elif e[0] == 'int':
             want = "int %d" % e[1]
